@@ -550,12 +550,63 @@ def checkC15 (st : DState) (req : List String) (obs : String) : DState × Option
       | some (_, first) =>
         if first = key then (st, none) else (st, some "same-input-different-result")
 
+mutual
+def numLeaves : Scheme.SExp → List Nat
+  | .num n => [n]
+  | .list items => numLeavesL items
+  | _ => []
+def numLeavesL : List Scheme.SExp → List Nat
+  | [] => []
+  | x :: xs => numLeaves x ++ numLeavesL xs
+end
+
+/-- The integer constants a numeric primary must contribute to the policy body, from the spec
+    token alone (count × unit in unbounded arithmetic); `none` for the clock reading. -/
+def wantedNumbers (t : Token) : Option (List (Option Nat)) :=
+  let cmpN (c : Comparison Nat) := [some c.val]
+  match t with
+  | .test (.userId c) | .test (.groupId c) | .test (.inodeNumber c) | .test (.links c)
+  | .test (.mirrorCount c) | .test (.stripeCount c) => some (cmpN c)
+  | .test (.size c) =>
+    let s := c.val
+    some (match s with
+      | .byte n => [some n]
+      | _ => [some s.mult, some (s.count * s.mult)])
+  | .test (.accessTime c) | .test (.changeTime c) | .test (.modifyTime c) =>
+    some [none, some c.val.secs, some c.val.count]
+  | _ => none
+
+/-- C07 on the emitted program: the constants are exactly count × unit (read back as integers). -/
+def checkC07Emit (req : List String) (obs : String) : Option String :=
+  match annotText req "kw", annotTexts req "args" with
+  | some kw, some args =>
+    match Spec.expectedToken (String.ofList kw) args, decodeCompile obs with
+    | .token (.global (.threads n)), .ok _ _ _ ((text, _) :: _) =>
+      match readProgram text with
+      | some p => if p.threads == .num n then none else some s!"thread-count-not-carried want={n}"
+      | none => some "program-does-not-read-back"
+    | .token t, .ok t0 t1 _ ((text, _) :: _) =>
+      match wantedNumbers t, readProgram text with
+      | some want, some p =>
+        let got := numLeaves p.body
+        if got.length ≠ want.length then some s!"constants want={want} got={got}"
+        else if (want.zip got).all (fun (w, g) => match w with
+            | some n => n == g
+            | none => t0 ≤ g && g ≤ t1) then none
+        else some s!"emitted-constant-differs want={want} got={got}"
+      | some _, none => some "program-does-not-read-back"
+      | none, _ => none
+    | _, _ => none
+  | _, _ => none
+
 def propCheck (prop : String) (st : DState) (req : List String) (obs : String) : DState × Option String :=
   match prop, req with
   | "C01", "P" :: hx :: _ => (st, (textOfHex hx).bind fun input => checkC01 input obs)
   | "C19", _ => (st, checkC19 (stripAnnot req) obs)
   | "C05", _ => (st, checkPrimary req obs)
-  | "C07", _ => (st, checkPrimary req obs)
+  | "C07", _ => (st, match checkPrimary req obs with
+      | some w => some w
+      | none => checkC07Emit req obs)
   | "C08", _ => (st, checkPrimary req obs)
   | "C14", _ => (st, checkPrimary req obs)
   | "C18", _ => (st, checkC18 req obs)
